@@ -361,6 +361,24 @@ INVALID = [
 ]
 
 
+def _rejected_update(P):
+    # a refused set_units must leave the dated calendar as configured before
+    c = P.DirectCalendar({B: 6})
+    try:
+        c.set_units({B: -4, B + timedelta(days=1): 3})
+    except RuntimeError:
+        if c.get_available_units(B) != 6 or c.get_available_units(B + timedelta(days=1)) not in (None, 0):
+            raise AssertionError('refused set_units changed the calendar: %r / %r' % (
+                c.get_available_units(B), c.get_available_units(B + timedelta(days=1))))
+        c.set_units({B + timedelta(days=2): 2})          # and the calendar stays usable
+        if c.get_available_units(B + timedelta(days=2)) != 2:
+            raise AssertionError('valid set_units after a refused one has no effect')
+        raise
+
+
+INVALID.append(('dated-set_units-refused-update-leaves-calendar-unchanged', _rejected_update))
+
+
 def check_invalid(case, exclude=True):
     import pjplan
     res = Result()
@@ -372,6 +390,8 @@ def check_invalid(case, exclude=True):
         res.v('C17:invalid-definition-raises-RecursionError(%s)' % name, None)
     except RuntimeError:
         pass
+    except AssertionError as e:
+        res.v('C17:rejected-definition-changed-the-calendar(%s)' % name, dict(error=str(e)))
     except Exception as e:
         res.v('C17:invalid-definition-raises-%s(%s)' % (type(e).__name__, name), dict(error=repr(e)[:200]))
     res.nontrivial = True
